@@ -183,7 +183,14 @@ class Composite(LexicalParent[Node], HasCreator, Node, ABC):
                 # or raise an error because they're already running
         else:  # Start fresh
             for node in self.starting_nodes:
-                node.run()
+                try:
+                    node.run()
+                except Exception as e:
+                    # Treat starting nodes like any other child: collect the error and
+                    # keep going, so that children already running elsewhere are not
+                    # abandoned and `failed` signals still get processed
+                    errors[node.full_label] = e
+                    accounted_for.add(node.label)
 
         self._run_while_children_or_signals_exist(errors, accounted_for)
 
